@@ -80,7 +80,8 @@ def isAsp (n : Node) : Bool := n.kind == BuildTable.aspKind
 /-- `'.'.join(item.split('.')[:ownerLen])` -/
 def owner (item : Name) : Name := item.take BuildTable.ownerLen
 
-/-- the `_diff` calls of `build`; an index out of range is the IndexError of the Python -/
+/-- the `_diff` calls of `build` whose results feed `ans` (order is irrelevant: `ans` is a set);
+    an index out of range is the IndexError of the Python -/
 def diffs (i : Input) : Except Err (List (List Name)) :=
   BuildTable.diffTables.mapM fun cp =>
     match i.latest[cp.1]?, i.previous[cp.2]? with
